@@ -114,6 +114,7 @@ pub fn plan(property: &str, seed: u64, idx: u64, thorough: bool) -> CasePlan {
             p.no_weak = false;
             fronts = vec![0, 1, 2];
             p.big_values = true;
+            p.tie_values = true;
             p.max_val = if thorough { 4 * 1_024 * 1_024 } else { 262_144 };
             steps = rng.range(20, 120) as usize;
             threaded = false;
